@@ -12,7 +12,16 @@ TRUSTED = []
 ASSUMPTIONS = ["node identities are unique within a tree (C01)"]
 
 
-def impl_node(tree, node, ser):
+def impl_node(tree, node, ser, typed=False):
+    # on a typed tree the kind-aware overrides are asked for ANY kind: then they are the plain relationship queries
+    ck = ()
+    sk = {}
+    if typed:
+        from nutree.typed_tree import ANY_KIND
+
+        ck = (ANY_KIND,)
+        sk = {"any_kind": True}
+
     def i(n):
         return None if n is None else ser.of(n)
 
@@ -32,12 +41,12 @@ def impl_node(tree, node, ser):
         "parent": g(lambda: i(node.parent)),
         "up1": up(1), "up2": up(2), "up3": up(3), "up0": up(0), "up99": up(99),
         "children": g(lambda: adapter.ids(node.children, ser)),
-        "first_child": g(lambda: i(node.first_child())), "last_child": g(lambda: i(node.last_child())),
-        "siblings": g(lambda: adapter.ids(node.get_siblings(), ser)),
-        "siblings_self": g(lambda: adapter.ids(node.get_siblings(add_self=True), ser)),
-        "first_sibling": g(lambda: i(node.first_sibling())), "last_sibling": g(lambda: i(node.last_sibling())),
-        "prev_sibling": g(lambda: i(node.prev_sibling())), "next_sibling": g(lambda: i(node.next_sibling())),
-        "index": g(lambda: node.get_index()),
+        "first_child": g(lambda: i(node.first_child(*ck))), "last_child": g(lambda: i(node.last_child(*ck))),
+        "siblings": g(lambda: adapter.ids(node.get_siblings(**sk), ser)),
+        "siblings_self": g(lambda: adapter.ids(node.get_siblings(add_self=True, **sk), ser)),
+        "first_sibling": g(lambda: i(node.first_sibling(**sk))), "last_sibling": g(lambda: i(node.last_sibling(**sk))),
+        "prev_sibling": g(lambda: i(node.prev_sibling(**sk))), "next_sibling": g(lambda: i(node.next_sibling(**sk))),
+        "index": g(lambda: node.get_index(**sk)),
         "depth": g(lambda: node.depth()), "height": g(lambda: node.calc_height()),
         "top": g(lambda: i(node.get_top())),
         "plist": g(lambda: adapter.ids(node.get_parent_list(), ser)),
@@ -47,8 +56,8 @@ def impl_node(tree, node, ser):
         "path": g(lambda: node.path), "path_noself": g(lambda: node.get_path(add_self=False)),
         "count": g(lambda: node.count_descendants()), "count_leaves": g(lambda: node.count_descendants(leaves_only=True)),
         "is_top": g(lambda: node.is_top()), "is_leaf": g(lambda: node.is_leaf()),
-        "is_first": g(lambda: node.is_first_sibling()), "is_last": g(lambda: node.is_last_sibling()),
-        "has_children": g(lambda: node.has_children()),
+        "is_first": g(lambda: node.is_first_sibling(**sk)), "is_last": g(lambda: node.is_last_sibling(**sk)),
+        "has_children": g(lambda: node.has_children(*ck)),
     }
 
 
@@ -63,9 +72,9 @@ def impl_pair(a, b, ser):
     return [g(lambda: a.is_descendant_of(b)), g(lambda: a.is_ancestor_of(b)), ca if isinstance(ca, str) else (None if ca is None else ser.of(ca))]
 
 
-def check_tree(ctx, out, spec, tag, tree=None):
+def check_tree(ctx, out, spec, tag, tree=None, typed=False):
     if tree is None:
-        tree = adapter.build(spec, ctx.pool)
+        tree = adapter.build(spec, ctx.pool, typed=typed)
     ser = adapter.Serials()
     ser.by_obj[id(tree.system_root)] = 0
     ser.keep.append(tree.system_root)
@@ -78,8 +87,8 @@ def check_tree(ctx, out, spec, tag, tree=None):
     nontriv = size >= 3 and tree.calc_height() >= 2
     for rec in resp["nodes"]:
         n = nodes[rec["id"]]
-        impl = impl_node(tree, n, ser)
-        case = dict(kind="node", spec=spec, node=rec["id"])
+        impl = impl_node(tree, n, ser, typed)
+        case = dict(kind="node", spec=spec, node=rec["id"], typed=typed)
         out.count((tag, repr(spec), rec["id"]), nontriv)
         for k, v in impl.items():
             out.dist["acc:" + k] += 1
@@ -143,6 +152,23 @@ def run(ctx):
         spec = gen.label_forest(shape, ({"a": ctx.rng.choice([0, 1, 2, 18, 19, 24, 25, 12]), "did": 5000 + next(cnt)} for _ in range(n)))
         check_tree(ctx, out, spec, "rnd")
         out.dist["random_tree"] += 1
+    # typed trees with mixed kinds among siblings: asked for ANY kind, the kind-aware overrides of TypedNode are the plain queries
+    for spec in TYPED_CORPUS:
+        check_tree(ctx, out, spec, "typed-corpus", typed=True)
+    for n in range(1, (6 if ctx.thorough else 5) + 1):
+        for shape in gen.forests(n):
+            for _ in range(3 if n >= 3 else 1):
+                cnt = itertools.count()
+                spec = gen.label_forest(shape, ({"a": next(cnt) % 12, "k": ctx.rng.choice("abc"), "did": 8000 + next(cnt)} for _ in range(n)))
+                check_tree(ctx, out, spec, "typed", typed=True)
+                out.dist["typed_tree"] += 1
+    for _ in range(150 if ctx.thorough else 30):
+        n = ctx.rng.randrange(6, 16)
+        shape = gen.random_shape(ctx.rng, n)
+        cnt = itertools.count()
+        spec = gen.label_forest(shape, ({"a": ctx.rng.choice([0, 1, 2, 18, 19, 24, 25, 12]), "k": ctx.rng.choice("ab"), "did": 9000 + next(cnt)} for _ in range(n)))
+        check_tree(ctx, out, spec, "typed-rnd", typed=True)
+        out.dist["typed_tree"] += 1
     # trees REACHED through mutation histories (add / shortcuts / copies / moves / removals with keep_children / sort / set_data):
     # the relationship queries must agree with the shape the tree has now
     import histories as H
@@ -173,6 +199,10 @@ def run(ctx):
     return out
 
 
+TYPED_CORPUS = [
+    [({"a": 0, "k": "a"}, []), ({"a": 1, "k": "b"}, []), ({"a": 2, "k": "a"}, []), ({"a": 3, "k": "b"}, [])],
+    [({"a": 0, "k": "a"}, [({"a": 1, "k": "a"}, []), ({"a": 2, "k": "b"}, []), ({"a": 3, "k": "a"}, []), ({"a": 4, "k": "c"}, [])])],
+]
 CORPUS = [
     [({"a": 0, "did": 1}, []), ({"a": 0, "did": 2}, []), ({"a": 0, "did": 3}, [])],
 ]
@@ -194,7 +224,7 @@ def replay(ctx, rp):
             impl.apply(dict(op))
         check_tree(ctx, out, spec, "replay", tree=impl.trees[spec["tree"]])
     else:
-        check_tree(ctx, out, tuplify_d(spec), "replay")
+        check_tree(ctx, out, tuplify_d(spec), "replay", typed=bool(rp["case"].get("typed")))
     return dict(failures=out.oracle_failures[:5], disagreements=out.disagreements[:5], property_holds=not out.oracle_failures)
 
 
